@@ -26,3 +26,116 @@ pub fn array_component_cycle(doc: &Value) -> bool {
     }
     false
 }
+
+use crate::emitprops::{cfg_sexp, gen_cases, EmitCase, SERVICE_NAMES};
+use crate::model;
+use crate::pipeline::*;
+use crate::report::Report;
+use crate::rng::Rng;
+use crate::sexp::{self, quote};
+use crate::specio;
+use crate::util::*;
+use std::collections::BTreeSet;
+
+fn case_text(c: &EmitCase, prior: &str) -> String { format!("(case {} (prior {}) (doc {}))", c.label, quote(prior), quote(&serde_json::to_string(&c.doc).unwrap_or_default().chars().take(6000).collect::<String>())) }
+
+/// service names that are words of the Rust language or of the generated code (still "ASCII alphanumeric words starting with a letter")
+pub const RISKY_SERVICE_NAMES: &[&str] = &["Type", "Self", "Crate", "Async Api", "Box", "Fluent Request", "Option"];
+
+struct Run { status: String, stderr: String, files: BTreeSet<String>, prior: &'static str, junk_survivors: Vec<String> }
+
+pub fn run(tier: &str, seed: u64, out: &str) {
+    silence_panics();
+    let mut rep = Report::new("C01", tier, seed);
+    let mut cases: Vec<EmitCase> = gen_cases("C01", tier, seed, &mut rep);
+    // configurations: service names that collide with words of the language; valid derive lists only
+    let rng0 = Rng::new(seed ^ 0xc01);
+    for (i, c) in cases.iter_mut().enumerate() {
+        let mut rng = rng0.fork(i as u64);
+        if c.label.starts_with("(generated") && rng.chance(1, 6) { c.cfg.name = rng.pick(RISKY_SERVICE_NAMES).to_string(); c.features.push("service_name_is_a_language_word".into()); }
+        c.cfg.derives.retain(|d| { use std::str::FromStr; proc_macro2::TokenStream::from_str(d.trim()).map(|t| !t.is_empty() && syn::parse2::<syn::Path>(t).is_ok()).unwrap_or(false) });
+        let _ = SERVICE_NAMES;
+    }
+    let runs: Vec<Run> = model::par_map(&cases.iter().enumerate().collect::<Vec<_>>(), |(i, c)| {
+        let root = fresh_dir("tot");
+        let spec = root.join("spec.json");
+        std::fs::write(&spec, serde_json::to_string(&c.doc).unwrap()).unwrap();
+        let dest = root.join("out");
+        // prior content of the output directory
+        let prior = match i % 5 { 0 | 1 | 2 => "empty", 3 => "previous generation", _ => "unrelated files" };
+        let mut junk: Vec<String> = vec![];
+        if prior == "previous generation" { let _ = run_cli(&root, &spec.to_string_lossy(), &dest.to_string_lossy(), &c.cfg, 20); }
+        if prior == "unrelated files" {
+            let t: Tree = [("src/old_module.rs", "pub fn old() {}\n"), ("src/model/stale.rs", "pub struct Stale;\n"), ("examples/gone.rs", "fn main() {}\n"), ("README.md", "keep me\n"), ("src/keep.rs", "// libninja: static\npub fn mine() {}\n")]
+                .iter().map(|(k, v)| (k.to_string(), v.as_bytes().to_vec())).collect();
+            write_tree(&dest, &t);
+            junk = vec!["src/old_module.rs".into(), "src/model/stale.rs".into(), "examples/gone.rs".into()];
+        }
+        let r = run_cli(&root, &spec.to_string_lossy(), &dest.to_string_lossy(), &c.cfg, 20);
+        let tree = read_tree(&dest);
+        let _ = std::fs::remove_dir_all(&root);
+        let survivors = junk.into_iter().filter(|j| tree.contains_key(j)).collect();
+        Run { status: r.status, stderr: r.stderr, files: tree.keys().filter(|k| k.ends_with(".rs") && (k.starts_with("src/") || k.starts_with("examples/"))).filter(|k| *k != "src/keep.rs").cloned().collect(), prior, junk_survivors: survivors }
+    });
+    // the model's verdict and file set
+    let reqs: Vec<String> = cases.iter().map(|c| {
+        match parse_spec(&serde_json::to_string(&c.doc).unwrap(), true) {
+            Ok(s) => format!("(pipeline {} {})", specio::spec(&s), cfg_sexp(&c.cfg)),
+            Err(_) => "(noop)".to_string(),
+        }
+    }).collect();
+    let mods = model::eval(&reqs);
+    let mut nontrivial = 0u64;
+    for ((c, r), m) in cases.iter().zip(runs.iter()).zip(mods.iter()) {
+        for f in &c.features { rep.bump(&format!("feature:{f}")); }
+        rep.bump(&format!("prior:{}", r.prior));
+        rep.bump(&format!("status:{}", r.status));
+        let case = case_text(c, r.prior);
+        // ---- oracle: every document of the domain generates, completely ----
+        if r.status != "exit 0" {
+            let tag = if r.status == "timeout" { "generatorHangs" } else if r.status.starts_with("signal") { "generatorCrashed" } else if r.status == "exit 101" { "generatorPanicked" } else { "generatorFailed" };
+            let mut trig = crash_triggers(&c.doc);
+            trig.extend(panic_message_triggers(c, &r.stderr));
+            let half = !r.files.is_empty();
+            rep.oracle_fail(tag, trig, &case, &format!("{}{}: {}", r.status, if half { format!(", leaving {} files of a half-written tree", r.files.len()) } else { String::new() }, r.stderr.lines().filter(|l| l.contains("panicked") || l.contains("error") || l.contains("overflow")).last().unwrap_or("").chars().take(300).collect::<String>()));
+        } else {
+            if r.files.len() > 5 { nontrivial += 1; }
+            for must in ["src/lib.rs", "src/model/mod.rs", "src/request/mod.rs"] { if !r.files.contains(must) { rep.oracle_fail("incompleteCrate", vec![], &case, &format!("{must} is missing after a successful run")); } }
+            let n_ops = crate::hirprops::count_operations(&c.doc);
+            let n_req = r.files.iter().filter(|f| f.starts_with("src/request/") && *f != "src/request/mod.rs").count();
+            let n_ex = r.files.iter().filter(|f| f.starts_with("examples/")).count();
+            if n_req > n_ops || (c.cfg.examples && n_ex != n_req) || (!c.cfg.examples && n_ex != 0 && r.prior == "empty") {
+                rep.oracle_fail("incompleteCrate", vec![], &case, &format!("{n_ops} operations, {n_req} request modules, {n_ex} examples (examples {})", c.cfg.examples));
+            }
+            if n_req < n_ops { rep.bump("operations_sharing_a_module(C06 finding)"); }
+            if !r.junk_survivors.is_empty() { rep.oracle_fail("staleFilesLeft", vec![], &case, &format!("{:?}", r.junk_survivors)); }
+        }
+        // ---- correspondence with the pipeline model ----
+        let Some(ms) = sexp::parse(m) else { continue };
+        let ml = ms.as_list().map(|l| l.to_vec()).unwrap_or_default();
+        let m_ok = ml.first().and_then(|a| a.as_atom()) == Some("ok");
+        if ml.first().and_then(|a| a.as_atom()) == Some("error") || ml.is_empty() { rep.bump("model_could_not_read_case"); continue; }
+        if m_ok != (r.status == "exit 0") {
+            rep.disagree(&case, &format!("{}: {}", r.status, r.stderr.lines().last().unwrap_or("")).chars().take(400).collect::<String>(), &m.chars().take(200).collect::<String>());
+        } else if m_ok && r.prior == "empty" {
+            let mf: BTreeSet<String> = ml.get(1).and_then(|f| f.as_list()).map(|l| l[1..].iter().filter_map(|x| x.as_str().map(|s| s.to_string())).collect()).unwrap_or_default();
+            if mf != r.files {
+                let only_real: Vec<&String> = r.files.difference(&mf).take(4).collect();
+                let only_model: Vec<&String> = mf.difference(&r.files).take(4).collect();
+                rep.disagree(&case, &format!("files only in the real tree: {only_real:?}"), &format!("files only in the model's tree: {only_model:?}"));
+            }
+        }
+    }
+    rep.evaluations = cases.len() as u64;
+    rep.distinct_nontrivial = nontrivial;
+    rep.rule = format!("{} (document, configuration, prior directory content) cases: bundled, corpus and structured random documents in D (recursive schemas through properties, arrays, maps, allOf and list components; keyword and digit-leading names), service names including words of the language, examples on / off, output directory empty / holding a previous generation / holding unrelated and static-marked files; each case runs the real `Generate::run` in its own process with a timeout; exit status, signal and the resulting tree are judged (success, the three module roots, one request module and example per operation, stale files removed) and compared with the Lean pipeline model's verdict and file set", cases.len());
+    rep.write(out);
+}
+
+/// trigger predicates of recorded findings, checked against the input (the panic message only selects which to test)
+fn panic_message_triggers(c: &EmitCase, stderr: &str) -> Vec<String> {
+    let mut t = vec![];
+    let keywordish = |s: &str| { use convert_case::{Case, Casing}; let p = s.to_case(Case::Pascal); KEYWORDS.contains(&p.to_case(Case::Snake).as_str()) || KEYWORDS.contains(&p.as_str()) };
+    if keywordish(&c.cfg.name) && (stderr.contains("import") || stderr.contains("syn::Path") || stderr.contains("Ident") || stderr.contains("ident")) { t.push("serviceNameIsKeyword".to_string()); }
+    t
+}
